@@ -511,6 +511,10 @@ func h5Sequential[T num, A arr[T, A]](k kit[T, A], rc *RunCtx, o *Outcome, ctl *
 				err := k.ref(fn, path, nil).Create(shape, T(0), w.Bool(30))
 				if hit() {
 					o.probe("operation_hit_by_fault")
+					if err == nil && md != nil && !eqInts(md.shape, shape) {
+						o.fail("create-semantics", "create/fault", "%s was hit by an injected fault and accepted an existing dataset of extent %v (a different extent must be refused, with or without a transient failure); history %v", curOp, md.shape, log)
+						return
+					}
 					if !resync(nil, &mDS{}, path) {
 						return
 					}
@@ -554,8 +558,12 @@ func h5Sequential[T num, A arr[T, A]](k kit[T, A], rc *RunCtx, o *Outcome, ctl *
 				if hit() {
 					o.probe("operation_hit_by_fault")
 					foot := map[int]float64{}
-					for i, v := range vals {
-						foot[i] = v
+					if md == nil || eqInts(md.shape, shape) {
+						// (a Write of another extent must be refused, fault or no fault: then no element
+						// may change)
+						for i, v := range vals {
+							foot[i] = v
+						}
 					}
 					tgt := md
 					if tgt == nil {
@@ -867,8 +875,9 @@ type h5Event struct {
 }
 
 type h5State struct {
-	shape []int
-	vals  []float64
+	absent bool
+	shape  []int
+	vals   []float64
 }
 
 func h5PorcupineModel() porcupine.Model {
@@ -898,11 +907,19 @@ func h5PorcupineModel() porcupine.Model {
 			switch in.Op {
 			case "init":
 				return true, h5State{shape: in.Shape, vals: in.Vals}
+			case "init-absent":
+				return true, h5State{absent: true, shape: in.Shape}
 			case "write":
 				if out.Err {
 					return false, st
 				}
 				return true, h5State{shape: st.shape, vals: in.Vals}
+			}
+			if st.absent {
+				// nothing but a Write can succeed on a dataset that does not exist yet
+				return out.Err, st
+			}
+			switch in.Op {
 			case "writeslice":
 				offs := blockOffsets(st.shape, in.Shape, in.Loc)
 				if offs == nil {
@@ -937,7 +954,7 @@ func h5PorcupineModel() porcupine.Model {
 		},
 		Equal: func(a, b interface{}) bool {
 			x, y := a.(h5State), b.(h5State)
-			if !eqInts(x.shape, y.shape) || len(x.vals) != len(y.vals) {
+			if x.absent != y.absent || !eqInts(x.shape, y.shape) || len(x.vals) != len(y.vals) {
 				return false
 			}
 			for i := range x.vals {
@@ -974,9 +991,19 @@ func h5Concurrent[T num, A arr[T, A]](k kit[T, A], rc *RunCtx, o *Outcome, ctl *
 	}
 	var events []h5Event
 	// initial contents, written through the real API before the clients start (sequentially)
+	absent := map[string]bool{}
 	for i := 0; i < nDS; i++ {
 		shape := drawShape(w, false)
 		vals := uniq(product(shape))
+		if i > 0 && w.Bool(35) {
+			// this dataset does not exist when the clients start: the first Write creates it, and
+			// until then every other operation on it must fail - it must never be seen half-made
+			full := fnames[i%2] + ":" + h5Paths[i]
+			dss = append(dss, dsInfo{full, shape})
+			absent[full] = true
+			events = append(events, h5Event{Client: 0, Call: int64(-2*nDS + 2*i), Return: int64(-2*nDS + 2*i + 1), In: h5In{Op: "init-absent", Path: full, Shape: shape}})
+			continue
+		}
 		// datasets are spread over two files: the library is not thread-safe across files either
 		full := fnames[i%2] + ":" + h5Paths[i]
 		dss = append(dss, dsInfo{full, shape})
@@ -1021,6 +1048,11 @@ func h5Concurrent[T num, A arr[T, A]](k kit[T, A], rc *RunCtx, o *Outcome, ctl *
 	o.Sample = map[string]interface{}{"mode": "concurrent", "element_type": k.name, "clients": nClients, "operations_per_client": opsPer, "datasets": len(dss), "latency": ctl.Latency}
 	s := simrt.Run(rc.T, simrt.Config{}, rc.S, func() {
 		for _, e := range events {
+			if e.In.Op == "init-absent" {
+				// make sure the file exists (the dataset does not)
+				hdf5.MakeGroup(e.In.Path[:strings.Index(e.In.Path, ":")], "/")
+				continue
+			}
 			if err := refOf(k, e.In.Path, nil).Write(makeSource(k, 0, e.In.Shape, e.In.Vals, w)); err != nil {
 				panic("harness: initial write failed: " + err.Error())
 			}
@@ -1033,7 +1065,9 @@ func h5Concurrent[T num, A arr[T, A]](k kit[T, A], rc *RunCtx, o *Outcome, ctl *
 					simrt.Yield("h5:client-op")
 					if in.Op == "catalogue" {
 						ref := refOf(k, in.Path, nil)
-						if !ref.Exists() {
+						if !ref.Exists() && !absent[in.Path] {
+							// (a dataset that a concurrent client has yet to create may be reported
+							// either way)
 							simrt.Record(h5Event{Client: -1, In: in})
 						}
 						root := refOf(k, in.Path[:strings.Index(in.Path, ":")]+":/", nil)
@@ -1114,6 +1148,9 @@ func h5Concurrent[T num, A arr[T, A]](k kit[T, A], rc *RunCtx, o *Outcome, ctl *
 	o.Checks += len(ops)
 	if s.Stats.LockWaits > 0 {
 		o.probe("client_waited_for_lock")
+	}
+	if len(absent) > 0 {
+		o.probe("dataset_created_by_a_concurrent_client")
 	}
 }
 
